@@ -45,7 +45,11 @@ func (g *G[P, F, S]) buildPool() (*pool[P], error) {
 	pl := &pool[P]{tors: []refcurve.Point{c.Neutral()}}
 	if g.full {
 		// a generator of the cyclic 8-torsion and its multiples
-		ts, orders := c.SmallOrderPoints()
+		base := c
+		if c.Kind == refcurve.Montgomery {
+			base = refcurve.Curve25519() // SmallOrderPoints insists on the package's own curve value; the torsion does not depend on G
+		}
+		ts, orders := base.SmallOrderPoints()
 		var t8 refcurve.Point
 		for i, o := range orders {
 			if o == 8 {
